@@ -52,6 +52,9 @@ type refAcc struct {
 	Deployer     []byte
 	Transfers    []string
 	GasUsed      uint64
+	// Spare renders the transfer slots between len and cap of the account's transfer list: a later
+	// merge that appends into a shared backing array writes there
+	Spare []string
 }
 
 func snapshotAcc(o *vmcommon.OutputAccount) refAcc {
@@ -82,6 +85,15 @@ func snapshotAcc(o *vmcommon.OutputAccount) refAcc {
 			v = t.Value.String()
 		}
 		r.Transfers = append(r.Transfers, fmt.Sprintf("%s|%d|%d|%x|%d|%x", v, t.GasLimit, t.GasLocked, t.Data, t.CallType, t.SenderAddress))
+	}
+	if n, c := len(o.OutputTransfers), cap(o.OutputTransfers); c > n {
+		for _, t := range o.OutputTransfers[n:c] {
+			v := "nil"
+			if t.Value != nil {
+				v = t.Value.String()
+			}
+			r.Spare = append(r.Spare, fmt.Sprintf("%s|%d|%d|%x|%d|%x", v, t.GasLimit, t.GasLocked, t.Data, t.CallType, t.SenderAddress))
+		}
 	}
 	return r
 }
@@ -136,6 +148,8 @@ func refEq(a, b refAcc, strictNil bool) string {
 		return "gasUsed"
 	case !reflect.DeepEqual(a.Transfers, b.Transfers) && !(len(a.Transfers) == 0 && len(b.Transfers) == 0):
 		return "transfers"
+	case strictNil && !reflect.DeepEqual(a.Spare, b.Spare):
+		return "transfers(spare capacity of the merged-in list written)"
 	}
 	if len(a.Storage) != len(b.Storage) || (strictNil && (a.Storage == nil) != (b.Storage == nil)) {
 		return "storage"
@@ -358,6 +372,30 @@ func C20(tier Tier) int {
 		}
 	}
 	cases = append(cases, vmcommon.SystemAccountAddress, vmcommon.ESDTSCAddress, []byte("ELROND"), []byte("ELRONDesdt"), []byte("ELRON"), []byte("elrond"), []byte("ELROND\x00"), []byte("xELROND"))
+	// the protected prefix in every position of keys up to 20 bytes, once and twice
+	for l := 6; l <= 20; l++ {
+		for p1 := 0; p1+6 <= l; p1++ {
+			k := bytes.Repeat([]byte{'x'}, l)
+			copy(k[p1:], "ELROND")
+			cases = append(cases, k)
+			for p2 := p1 + 1; p2+6 <= l; p2++ {
+				k2 := append([]byte{}, k...)
+				copy(k2[p2:], "ELROND")
+				cases = append(cases, k2)
+			}
+		}
+	}
+	// pairs of bytes whose sum is a multiple of 256, short and 32 bytes long (a classifier that
+	// accumulates instead of comparing is blind to them)
+	for b := 1; b < 256; b++ {
+		cases = append(cases, []byte{byte(b), byte(256 - b)})
+		x := make([]byte, 32)
+		x[3], x[17] = byte(b), byte(256-b)
+		cases = append(cases, x)
+		y := bytes.Repeat([]byte{0x11}, 32)
+		y[0], y[31] = byte(b), byte((256*32-0x11*30-b)%256)
+		cases = append(cases, y)
+	}
 	for _, a := range cases {
 		a := a
 		orig := append([]byte{}, a...)
